@@ -803,7 +803,7 @@ def main():
             for o in new:
                 r.apply(o); ops.append(o)
         return narrow(ops, bigfam[:2] + rng.sample(bigfam[2:], 5) + away[:3])
-    for i in range(120 if thorough else 6):
+    for i in range(120 if thorough else 4):
         cases.append(gen_handover(rng.randrange(15, 36)))
     n_hand = len(cases) - n_before_hand
     for ops in cases[n_before_link:]:
@@ -982,7 +982,7 @@ def main():
     lap("cases generated")
     import threading
     dio = []
-    dthread = threading.Thread(target=lambda: dio.extend(vf.run_impl(impl_d, "C04", dlines, deadline_ms=120000, max_hangs=2)))
+    dthread = threading.Thread(target=lambda: dio.extend(vf.run_impl(impl_d, "C04", dlines, deadline_ms=120000, max_hangs=2, env={"VERIF_C04_PROC2_DEADLINE_MS": "40000"})))
     dthread.start()
 
     lines = [case_line(ops) for ops in cases]
@@ -1195,7 +1195,12 @@ def main():
                           "docker build: files of at most 70 000 records are loaded (a full 2 000 000-record .PASSWDS is 1 GB); the last slots of the table are reached through SetUserID / AddToUHash; the zeroed / reset segment "
                           "(2 000 000-step self-loops) is exercised on the default build only; a record with a non-empty invalid id behind more than PRE_ALLOCATED_USERS free records is outside the premises",
                           "one writer at a time (concurrent registrations are C15): the second process runs its operation while the first one waits, so two LoadUHash calls racing each other are not driven",
-                          "an operation of a second process that has not returned after 2.5 s (12 s on the re-run; LoadUHash over 2^16 buckets and 50 records takes milliseconds) never returns", "SysV shmget/shmat give every attached process the same bytes",
+                          "an operation of a second process that has not returned after 2.5 s (12 s on the re-run; LoadUHash over 2^16 buckets and 50 records takes milliseconds; 40 s on the docker build, whose "
+                          "second process reloads up to 70 000 records while other jobs load the machine; 20 s for a long-lived attached process of op 34) never returns",
+                          "symbolic links: the model resolves the directory entry before loading by definition (C04_load_through_links); that cache.LoadUHash sizes and reads the TABLE is validated on real "
+                          "links (absolute, relative, link to a link) in the scratch tree; hard links, bind mounts and a table replaced during a load are not driven",
+                          "process-private state: the model has none (C04_operation_is_function_of_segment); the long-lived processes take turns, one operation at a time - true concurrency is not driven - "
+                          "on chains of 17 to about 35 slots (the default build has 50 slots); the docker build runs no long-lived peers", "SysV shmget/shmat give every attached process the same bytes",
                           "killUser does not release the slot in the index (C03's finding, row 19 of DESIGN section 6); this check drives cache.* only"])
 
 
